@@ -695,6 +695,92 @@ func R2Model(c *Ctx) {
 		if nCopy == 0 || nAdv == 0 {
 			c.R.Anchor(rule, "copy/advance statements of parser."+n)
 		}
+		// coverage: the field is decoded for every buffer length >= W (both the
+		// "exactly W" and the "more than W" class reach a copy)
+		coverEq, coverGt := false, false
+		for _, b := range fn.Blocks {
+			has := false
+			for _, in := range b.Instrs {
+				if cl, ok := in.(*ssa.Call); ok && CalleeName(cl) == "builtin.copy" {
+					has = true
+				}
+			}
+			if !has {
+				continue
+			}
+			ge, gt, eqT, eqF, other := false, false, false, false, false
+			for _, f := range FactsAt(b) {
+				bo, ok := f.Cond.(*ssa.BinOp)
+				if ok {
+					// exit condition of the zero-fill range loop over the local array: neutral
+					if _, isPhi := bo.X.(*ssa.Phi); isPhi {
+						continue
+					}
+					if add, isAdd := bo.X.(*ssa.BinOp); isAdd {
+						if _, isPhi := add.X.(*ssa.Phi); isPhi {
+							continue
+						}
+					}
+				}
+				if !ok || !isLenOfBuffer(bo.X) {
+					other = true
+					continue
+				}
+				v, isC := ConstInt(bo.Y)
+				if !isC {
+					other = true
+					continue
+				}
+				op := bo.Op
+				if !f.Truth {
+					switch op {
+					case token.LSS:
+						op = token.GEQ
+					case token.LEQ:
+						op = token.GTR
+					case token.GEQ:
+						op = token.LSS
+					case token.GTR:
+						op = token.LEQ
+					case token.EQL:
+						op = token.NEQ
+					case token.NEQ:
+						op = token.EQL
+					}
+				}
+				switch {
+				case op == token.GEQ && v == w, op == token.GTR && v == w-1:
+					ge = true
+				case op == token.GTR && v == w, op == token.GEQ && v == w+1:
+					gt = true
+				case op == token.EQL && v == w:
+					eqT = true
+				case op == token.NEQ && v == w:
+					eqF = true
+				default:
+					other = true
+				}
+			}
+			if other {
+				continue
+			}
+			switch {
+			case ge && eqT:
+				coverEq = true
+			case ge && eqF, gt:
+				coverGt = true
+			case ge:
+				coverEq, coverGt = true, true
+			case eqT:
+				coverEq = true
+			}
+		}
+		construct := "decode iff Length() >= " + itoa(int(w))
+		if coverEq && coverGt {
+			c.R.Ok(rule, FuncShort(fn), construct, c.pos(fn.Pos()), "a copy is reached both for Length() == W and for Length() > W", true)
+		} else {
+			c.R.Bad(rule, FuncShort(fn), construct, c.pos(fn.Pos()), fmt.Sprintf("the field is not decoded for every buffer that holds it (Length()==%d covered: %v, Length()>%d covered: %v): a value that is exactly the last %d bytes (or followed by more) reads as 0", w, coverEq, w, coverGt, w))
+		}
 	}
 	// CanIRead widths
 	cir := c.P.Func(PkgParser, "Parser.CanIRead")
